@@ -128,13 +128,4 @@ Proof.
   intros H p. rewrite !found_all_in. split; intros [r [H1 H2]]; exists r; split; auto; apply H; auto.
 Qed.
 
-Variable search : str -> str -> bool.
-Theorem imported_only_accepted walk_roots name_roots mpats fp m :
-  In (fp, m) (imported ident tpat fpat ign usecompiled top search walk_roots name_roots mpats) ->
-  In fp (found_all walk_roots) /\ module_name usecompiled name_roots fp = Some m /\ accept search mpats m = true.
-Proof.
-  unfold imported. rewrite in_flat_map. intros [q [Hq H]].
-  destruct (module_name usecompiled name_roots q) as [m'|] eqn:Em; [|destruct H].
-  destruct (accept search mpats m') eqn:Ea; [|destruct H]. destruct H as [E|[]]. injection E as -> ->. auto.
-Qed.
 End R.
